@@ -11,3 +11,8 @@ import Rpki.Props.C09
 #print axioms Rpki.Props.C09.object_roundtrip
 #print axioms Rpki.Props.C09.object_decode_iff
 #print axioms Rpki.Props.C09.b64_text_is_clean
+#print axioms Rpki.Props.C09.notification_read_back
+#print axioms Rpki.Props.C09.notification_writer_injective
+#print axioms Rpki.Props.C09.file_read_back
+#print axioms Rpki.Props.C09.file_writer_injective
+#print axioms Rpki.Props.C09.publish_fields
